@@ -83,7 +83,13 @@ def _run(ctx):
                 pass
             if und:
                 probs.append("share mutation not dominated by the accrual: %s" % [h.bloc(b) for b in und[:4]])
-            ctx.inst("C06.R1", construct, not probs, "accrual on `%s` (time from Clock) dominates all %d share-mutation sites, result checked" % (bf, len(mut_blocks)),
+            # nothing else may move the bank's accrual timestamp before the accrual runs (a later accrual would see no elapsed time)
+            acc_blocks = {c_.block for c_ in h.calls() if c_.key == akey}
+            lu = [b for b in A.write_blocks(prog, h, lambda o, n: (o, n) == (BANK, "last_update")) if b not in acc_blocks]
+            early = [b for b in lu if any(e in h.reachable(start=b) for e in ev)]
+            if early:
+                probs.append("Bank.last_update is written at %s before the accrual runs" % [h.bloc(b) for b in early[:3]])
+            ctx.inst("C06.R1", construct, not probs, "accrual on `%s` (time from Clock) dominates all %d share-mutation sites, nothing stamps last_update before it, result checked" % (bf, len(mut_blocks)),
                      "; ".join(probs) or "ok", cands[0][0].loc)
 
     # ------------------------------------------------------------------ R2 accrual wiring
